@@ -113,6 +113,32 @@ NETS = {
         "stations": {"PS-%d" % i: (("cont", 0, 32), 208, 0) for i in range(1, 7)},
         "constraints": [],
     },
+    # N12: constraint coefficients of magnitude above 1 (a feeder that counts one station twice, a 1.5-weighted line)
+    "N12": {
+        "stations": {
+            "PS-A": (("cont", 0, 32), 208, 30),
+            "PS-B": (("fin", F8), 208, 30),
+            "PS-C": (("cont", 0, 32), 240, -90),
+        },
+        "constraints": [
+            ("feed", {"PS-A": 2, "PS-B": 1, "PS-C": 1}, 60.3),
+            ("lb", {"PS-B": 1.5, "PS-C": -1}, 33.3),
+        ],
+    },
+    # N13: N2 with a two-level finite-rate EVSE (off / 16 A) in place of PS-B
+    "N13": {
+        "stations": {
+            "PS-A": (("cont", 0, 32), 208, 30),
+            "PS-B": (("fin", [16]), 208, -90),
+            "PS-C": (("fin", F6), 240, 150),
+        },
+        "constraints": [
+            ("pod", {"PS-A": 1, "PS-B": 1}, 40.5),
+            ("la", {"PS-A": 1, "PS-C": -1}, 30.3),
+            ("lb", {"PS-B": 1, "PS-A": -1}, 30.3),
+            ("lc", {"PS-C": 1, "PS-B": -1}, 30.3),
+        ],
+    },
     # N11: finite-rate EVSEs; two constraints on the SAME aggregate current with different limits (the looser one first)
     # and a pod so tight that the minimum rates of A and B (8 + 6 A) do not fit together
     "N11": {
@@ -438,6 +464,7 @@ def build_sim(scn, algo=None, on_call=None, on_return=None, net_cls=MonNet, moni
     earlier run, which are reset() and used again instead of fresh ones"""
     net = build_network(scn["net"], scn.get("order"), scn.get("corder"), cls=net_cls, limits=scn.get("limits"), unnamed=bool(scn.get("unnamed")), hist=scn.get("hist"))
     evs = {}
+    batteries = {}
     events = []
     order = scn.get("sorder") or range(len(scn["sessions"]))
     for i in order:
@@ -446,7 +473,10 @@ def build_sim(scn, algo=None, on_call=None, on_return=None, net_cls=MonNet, moni
             ev = reuse[s["sid"]]
             ev.reset()
         else:
-            ev = make_ev(s)
+            # "batt_of": the same vehicle on a later visit - this session's EV is built around the Battery OBJECT of an earlier one
+            batt = batteries[s["batt_of"]] if s.get("batt_of") is not None else make_battery(s)
+            batteries[s["sid"]] = batt
+            ev = EV(s["a"], s["d"], s["e"], s["st"], s["sid"], batt, estimated_departure=s.get("ed"))
         evs[s["sid"]] = ev
         # "pt": the plug-in EVENT may carry another timestamp than the EV's nominal arrival (driver early / late)
         events.append(PluginEvent(s.get("pt", s["a"]), ev))
@@ -455,6 +485,8 @@ def build_sim(scn, algo=None, on_call=None, on_return=None, net_cls=MonNet, moni
             events.append(UnplugEvent(s["xu"], ev))
     for t in scn.get("recompute", []):
         events.append(RecomputeEvent(t))
+        if scn.get("rc_prec") is not None:
+            events[-1].precedence = scn["rc_prec"]  # a user-chosen precedence (public attribute of the event)
     inner = algo if algo is not None else make_algorithm(scn["sched"])
     rec = Recorder(inner, on_call, on_return, peek=peek)
     if "k" in scn:
